@@ -51,9 +51,11 @@ def nontrivial_table(descr):
 
 
 def main(ctx):
+    from mc.util import no_fd_leak
     import esutil
     from esutil import sfile, recfile
 
+    @no_fd_leak
     def do_write(writer, fn, d, hdr):
         if writer == "SFile.write":
             sf = sfile.SFile(fn, "w")
@@ -70,6 +72,7 @@ def main(ctx):
         else:
             raise ValueError(writer)
 
+    @no_fd_leak
     def do_read(reader, fn, d, offset):
         """-> (array, header or None)"""
         if reader == "sfile.read":
